@@ -7,7 +7,7 @@
 EXTENDS JetProg
 CONSTANTS Depth, Kinds
 
-Focals == {"ok", "fail", "failvar"}
+Focals == {"ok", "fail", "failvar", "panic"}
 TryKinds == {"none", "try"}
 ProbeKinds == {"top", "block", "include"}
 
@@ -15,6 +15,8 @@ Focal(f) ==
   CASE f = "ok"      -> <<T("f0"), P("fp", Ctx)>>
     [] f = "fail"    -> <<T("f0"), P("ff", FailE), T("f1")>>
     [] f = "failvar" -> <<T("f0"), P("ff", Var("g")), T("f1")>>
+    \* a user function panics with a non-error value: outside try the panic escapes Execute; the Runtime is clean all the same
+    [] f = "panic"   -> <<T("f0"), P("ff", Ex("err", "panic")), T("f1")>>
 
 MkC(par) ==
   LET path == par[1]  f == par[2]  tk == par[3]  pk == par[4]  toplet == par[5]
